@@ -142,7 +142,7 @@ Lemma stuck_only_on_inconsistent_ids L m e s :
   (exists c f, e = TrOpened c f /\ lookup c (pending m) = None) \/
   (exists p c l f q, e = TrEstablished p c l f /\ lookup c (pending m) = Some q /\ q <> p).
 Proof.
-  destruct e as [p f|p f|p|c pa|c f|c pa|p c lst f|c|c ok|p c|]; cbn [step].
+  destruct e as [p f|p f|p|c pa|c f|c pa|p c lst f|c|c ok|p c| |a]; cbn [step].
   - unfold do_dial_peer. repeat match goal with |- context [if ?b then _ else _] => destruct b end;
       try (destruct (can_dial (state_of m p))); cbn [snd In];
       repeat match goal with |- context [if ?b then _ else _] => destruct b end; cbn [snd In];
@@ -180,4 +180,11 @@ Proof.
     cbn [snd In]. tauto.
   - destruct (do_closed m p c) as [m1 rep]. destruct rep; cbn [snd In]; intuition discriminate.
   - cbn [snd In]. intuition discriminate.
+  - unfold do_dial_shape. destruct (limit_reached _ _); [cbn [snd In]; intuition discriminate|].
+    destruct (DialShape.dial_shape LISTEN a) as [code|p|p].
+    + cbn [snd In]. intuition discriminate.
+    + unfold do_dial_addr. repeat match goal with |- context [if ?b then _ else _] => destruct b end;
+        try (destruct (can_dial (state_of _ p))); cbn [snd In]; intuition discriminate.
+    + unfold do_dial_addr_missing. repeat match goal with |- context [if ?b then _ else _] => destruct b end;
+        try (destruct (can_dial (state_of _ p))); cbn [snd In]; intuition discriminate.
 Qed.
